@@ -95,3 +95,19 @@
     }
     pub(crate) fn crc_calls() -> usize { unsafe { CRC_CALLS } }
     pub(crate) fn crc_log(i: usize) -> (*const u8, usize, u16) { unsafe { CRC_LOG[i] } }
+
+    // ---- position-indexed contract stub for calc_crc_with_0564: a deterministic but otherwise arbitrary function of
+    // WHERE in the harness buffer the 6 header bytes start (the harness fixes the buffer contents, so "same position"
+    // = "same bytes"). Used only by dispatcher harnesses; the real function is proved equal to the polynomial above.
+    pub(crate) static mut HCRC_BASE: *const u8 = core::ptr::null();
+    pub(crate) static mut HCRC_AT: [u16; 32] = [0; 32];
+    pub(crate) fn hcrc_init(base: *const u8) {
+        unsafe { HCRC_BASE = base; HCRC_AT = kani::any(); }
+    }
+    pub(crate) fn hcrc_at(i: usize) -> u16 { unsafe { HCRC_AT[i] } }
+    pub(crate) fn stub_calc_crc_with_0564(s: &[u8]) -> u16 {
+        assert!(s.len() == 6);
+        let off = unsafe { s.as_ptr().offset_from(HCRC_BASE) };
+        assert!(off >= 0 && off < 32);
+        unsafe { HCRC_AT[off as usize] }
+    }
